@@ -244,7 +244,14 @@ def _check_conversion(res: Result, proj: Project, sim: StepSim):
             a = [ev.ev(x) for x in call.args]
             row = a[0]
             log["initial"].append(list(row))
-            log["args"].append(a[1:])
+            log["args"].append(a[1:3])
+            miss = a[3] if len(a) > 3 else None
+            if isinstance(miss, set):
+                # like the real walk: the set is the walk's working state - empty at the start of every ranking, and
+                # holding the elements left non-ranked at its end
+                log.setdefault("missing_at_start", []).append(set(miss))
+                miss.clear()
+                miss.update(i for i, x in enumerate(targets[k[0]]) if x < 0)
             for i, x in enumerate(targets[k[0]]):
                 row[i] = x
             k[0] += 1
@@ -271,12 +278,14 @@ def _check_conversion(res: Result, proj: Project, sim: StepSim):
                     buckets[b].add(e)
             want.append(("Ranking", buckets))
         good = ret == want and all(r == [0, 1, 2] for r in log["initial"]) and not other_called \
-            and all(a[0] == 7 and a[1] == 3 for a in log["args"])
+            and all(a[0] == 7 and a[1] == 3 for a in log["args"]) \
+            and all(not m_ for m_ in log.get("missing_at_start", []))
         res.check(good, "M4", f"Ranking.generate_rankings:conversion:complete={complete}", gen.loc(),
                   ok_detail="rows start as 0..n-1, the walk for the requested mode is applied, ids become buckets over "
                             "exactly the ranked elements",
                   bad_detail=f"final vectors {targets}: produced {ret!r}, expected {want!r}; initial rows {log['initial']}; "
-                             f"walk args {log['args']}; other mode called: {bool(other_called)}")
+                             f"walk args {log['args']}; non-ranked elements at the start of each walk "
+                             f"{log.get('missing_at_start')}; other mode called: {bool(other_called)}")
 
 
 def _check_uniform(res: Result, proj: Project):
